@@ -31,6 +31,7 @@ def tr_bars(r, n):
 
 def gen_cases(ctx):
     r = ctx.rng
+    rot = Rot(r)
     cases = []
     for ind in KINDS:
         grid = params_grid(ind, [1, 2, 3, 4])
@@ -49,7 +50,7 @@ def gen_cases(ctx):
                     bars = tr_bars(r, n) if r.random() < 0.6 else bar_stream(r, n, r.choice(["walk", "grid", "free"]))
                     feeds = [("b", 0) + b for b in bars]
                 else:
-                    feeds = [("n", 0, x) for x in scalar_stream(r, n, r.choice(["walk", "signed", "ties", "grid", "mixed"]))]
+                    feeds = [("n", 0, x) for x in scalar_stream(r, n, rot.pick((ind, "n"), ["walk", "signed", "ties", "grid", "mixed"]))]
                 cases.append(Case("%s_g%d_%d" % (ind, gi, rep), [new_op(0, ind, pr)] + feeds, dump=(0,),
                                   meta={"ind": ind, "params": pr, "n": n}))
     return with_scaled(cases, r)
